@@ -33,6 +33,9 @@ type rawRec struct {
 	from   peer.ID // ReceivedFrom
 	reason string
 	rpc    *RPC
+	canon  []string // canonical content, computed at trace time (only when the node asks for it)
+	size   int
+	inSend bool // traced from inside GossipSubRouter.sendRPC
 }
 
 type simSub struct {
@@ -69,6 +72,7 @@ type simNode struct {
 	relays map[string][]RelayCancelFunc
 
 	topicOpts func(name string) []TopicOpt
+	canonRPC bool
 	onWire  func(fp *fakePeer, o *wireObs)
 	onRaw   func(r *rawRec)
 	created time.Duration
@@ -140,8 +144,20 @@ func (r rawTap) DuplicateMessage(msg *Message) {
 }
 func (r rawTap) ThrottlePeer(p peer.ID)       { r.add(rawRec{kind: "throttle", p: p}) }
 func (r rawTap) RecvRPC(rpc *RPC)             { r.add(rawRec{kind: "recv", p: rpc.from, rpc: rpc}) }
-func (r rawTap) SendRPC(rpc *RPC, p peer.ID)  { r.add(rawRec{kind: "send", p: p, rpc: rpc}) }
-func (r rawTap) DropRPC(rpc *RPC, p peer.ID)  { r.add(rawRec{kind: "drop", p: p, rpc: rpc}) }
+func (r rawTap) SendRPC(rpc *RPC, p peer.ID) {
+	rec := rawRec{kind: "send", p: p, rpc: rpc}
+	if r.n.canonRPC {
+		rec.canon, rec.size, rec.inSend = canonRPC(&rpc.RPC), rpc.Size(), stackHas("GossipSubRouter).sendRPC")
+	}
+	r.add(rec)
+}
+func (r rawTap) DropRPC(rpc *RPC, p peer.ID) {
+	rec := rawRec{kind: "drop", p: p, rpc: rpc}
+	if r.n.canonRPC {
+		rec.canon, rec.size, rec.inSend = canonRPC(&rpc.RPC), rpc.Size(), stackHas("GossipSubRouter).sendRPC")
+	}
+	r.add(rec)
+}
 func (r rawTap) UndeliverableMessage(msg *Message) {
 	r.add(rawRec{kind: "undeliverable", mid: r.mid(msg), topic: msg.GetTopic()})
 }
